@@ -45,7 +45,7 @@ def floors(tier):
             "keyword_cells_both_outcomes": 80,   # of 107 (draft, keyword) cells
             "distinct_nontrivial": 10000,
             "calibration_cases": 2000, "consulting_pairs_enumerated": 500, "shape_pairs_enumerated": 2000,
-            "pattern_tables_enumerated": 3000, "compared_neutral_configurations": 50000, "compared_with_assorted_ids": 20000}
+            "pattern_tables_enumerated": 3000, "compared_neutral_configurations": 50000, "compared_with_assorted_ids": 20000, "large_instances_compared": 3000}
 
 
 def classify(case, detail):
@@ -179,6 +179,40 @@ CONFIGS = [("types={'array': list, 'object': dict} (what they already are)", _wi
            ("a format checker that knows no format", _with_format_checker_unused)]
 
 
+def _large(ctx):
+    """Large instances (a hundred to a few thousand elements or members) that fail or pass in bulk: the verdict does not
+    depend on how many elements there are, how many of them fail, or how many errors a failing branch piles up."""
+    n = 0
+    sizes = [30, 99, 100, 101, 150, 257, 700]
+    for d in impl.DRAFTS:
+        alt = (lambda subs: {"type": subs}) if d == 3 else (lambda subs: {"anyOf": subs})
+        strs = {"items": {"type": "string"}}
+        templates = [alt([strs, {"type": "object"}]), alt([strs, {"items": {"type": "null"}}, {"maxItems": 2}]),
+                     {"items": alt([{"type": "string"}, {"type": "null"}])}, {"items": {"type": "integer"}, "uniqueItems": True},
+                     {"additionalProperties": {"type": "integer"}}, {"patternProperties": {"^k": {"type": "string"}}, "additionalProperties": False},
+                     {"properties": {"k1": {"type": "string"}}, "additionalProperties": alt([{"type": "string"}, {"type": "boolean"}])},
+                     {"maxItems": 100}, {"minItems": 100}, {"maxProperties": 100} if d != 3 else {"maxItems": 99}, {"items": [{"type": "integer"}] * 3, "additionalItems": {"type": "integer"}}]
+        if d != 3:
+            templates += [{"oneOf": [strs, {"type": "object"}]}, {"oneOf": [strs, {"items": {"type": "integer"}}, {"type": "array"}]}, {"not": strs}, {"allOf": [strs, {"minItems": 1}]},
+                          {"not": {"anyOf": [strs, {"type": "object"}]}}, {"anyOf": [{"allOf": [strs, strs]}, {"oneOf": [strs, strs]}]}]
+        else:
+            templates += [{"disallow": [strs]}, {"extends": [strs, {"minItems": 1}]}, {"type": [{"extends": [strs]}, "object"]}]
+        if d >= 6:
+            templates += [{"contains": {"type": "string"}}, {"propertyNames": {"maxLength": 3}}, {"items": {"const": 1}}]
+        if d >= 7:
+            templates += [{"if": strs, "then": {"maxItems": 0}, "else": {"minItems": 1}}, {"if": {"anyOf": [strs, {"type": "object"}]}, "then": False}]
+        for S in templates:
+            for size in sizes:
+                n += 1
+                if not ctx.mine(n):
+                    continue
+                insts = [list(range(size)), ["s"] * size, ["s"] * (size - 1) + [1], [1] + ["s"] * (size - 1), [None] * size,
+                         {"k%d" % i: i for i in range(size)}, {"k%d" % i: "s" for i in range(size)}, {"k%d" % i: (i % 2 == 0) for i in range(size)}]
+                for inst in insts:
+                    ctx.count("large_instances_compared")
+                    compare(ctx, d, S, inst, tag="large")
+
+
 def run(ctx):
     impl.quiet()
     if ctx.shard == 0:
@@ -197,6 +231,7 @@ def run(ctx):
         klog.install(impl.CLS[d], "d%d" % d)
     try:
         _core(ctx)
+        _large(ctx)
         _random(ctx)
     finally:
         klog.uninstall()
